@@ -146,6 +146,14 @@ def waitfor_stage(chk):
                 {**site_case(s), "translator_notes": tr.notes[:6]})
     for s in tr.edges()[:2]:
         chk.sample(site_case(s))
+    # the end-of-track callback must wait for the core without any bound
+    for s in tr.callback_sites():
+        if s[2] != "Blocking":
+            chk.monitor_failure(
+                "callback_wait_unbounded", {"file": s[3], "construct": s[5]},
+                f"the GStreamer-thread -> core callback at {s[3]}:{s[4]} ({s[5]}) gives up after a timeout: the "
+                "calling thread can resume before the core has served the end-of-track callback",
+                site_case(s))
 
     # dynamic runs
     n_runs = 6 if chk.tier == "quick" else 40
@@ -154,7 +162,8 @@ def waitfor_stage(chk):
         cases.append({"seed": chk.rng.randint(1, 10**6), "clients": chk.rng.choice([2, 4, 6, 8]),
                       "ops": 60 if chk.tier == "quick" else chk.rng.choice([60, 120, 200]),
                       "backends": chk.rng.choice([1, 2, 3]), "frontends": chk.rng.choice([1, 2]),
-                      "sync_atf": int(i % 2 == 1), "deadline": 30})
+                      "sync_atf": int(i % 2 == 1), "deadline": 30,
+                      "hold": 1.3 if (chk.tier == "quick" or i % 4) else 3.2})
     results = run_parallel("waitfor", cases, per_case_timeout=40, jobs=min(12, n_runs), chunk=1)
     observed = {}
     run_ok = True
@@ -189,6 +198,17 @@ def waitfor_stage(chk):
                                 "core thread with the caller blocked until it finished",
                                 {"case": case, "calls": r["foreign_calls"], "done_when_returned":
                                  r["foreign_done_when_returned"], "threads": r["callback_threads"]})
+        b = r.get("busy_core") or {}
+        if b.get("caller_returned_before_release") or b.get("served_when_caller_returned") != 1 \
+                or b.get("order") != ["core-busy", "callback-issued", "core-released", "core-served",
+                                      "caller-returned"]:
+            chk.monitor_failure(
+                "about_to_finish_caller_blocks_while_core_busy", {"thread": "foreign", "core": "busy"},
+                "with the core thread busy the streaming thread returned from the end-of-track callback before "
+                "the core had served it",
+                {"schedule": f"client keeps the core actor inside a backend browse for {case.get('hold', 1.3)} s; "
+                             "a foreign (streaming) thread fires about-to-finish meanwhile; the core is released "
+                             "only afterwards", "observed": b, "case": case})
         if r["left"] != 0:
             chk.monitor_failure("waitfor_left_running", {"mode": "waitfor"}, "actors left after orderly stop",
                                 {"case": case, "left": r["left"]})
@@ -219,6 +239,7 @@ def waitfor_stage(chk):
         "Import ListNotations.\n"
         "Eval vm_compute in (map pair_code (bad_edges edges mopidy_rank)).\n"
         "Eval vm_compute in (map pair_code (filter (fun s => upward mopidy_rank s && site_blocking s) sites)).\n"
+        "Eval vm_compute in (map s_line (bounded_callback_sites sites)).\n"
         f"Eval vm_compute in (unexplained edges {obs_term}%Z).\n"
         "Theorem fresh_mopidy_edges_ranked : rank_ok_b edges mopidy_rank = true.\n"
         "Proof. vm_compute. reflexivity. Qed.\n"
@@ -236,6 +257,8 @@ def waitfor_stage(chk):
         "Proof. intros comp_of code_of. apply (ranked_no_cycle_lemma edges mopidy_rank).\n"
         "  exact fresh_mopidy_edges_ranked. Qed.\n"
         "Print Assumptions fresh_mopidy_no_deadlock.\n"
+        "Theorem fresh_callback_unbounded : callback_unbounded_b sites = true.\n"
+        "Proof. vm_compute. reflexivity. Qed.\n"
     )
     tmp = Path(tempfile.mkdtemp(prefix="verif-c18fresh-"))
     try:
@@ -250,12 +273,14 @@ def waitfor_stage(chk):
                             "rank_ok_b / upward_is_tell_b / no-deadlock corollary re-proved)")
     lists = vlib.parse_all_lists(out2)
     closed = "Closed under the global context" in out2
-    chk.obligation("theorem:fresh_mopidy_edges_ranked", "theorem", rc1 == 0 and rc2 == 0 and closed,
-                   "" if rc2 == 0 else (out1 + out2)[-1500:])
-    if len(lists) >= 3:
-        bad, upblock, unexpl = lists[0], lists[1], lists[2]
+    chk.obligation("theorem:fresh_mopidy_edges_ranked", "theorem", rc1 == 0 and closed,
+                   "" if closed else (out1 + out2)[-1500:])
+    if len(lists) >= 4:
+        bad, upblock, bounded_cb, unexpl = lists[0], lists[1], lists[2], lists[3]
         chk.obligation("fresh:bad_edges_empty", "theorem", not bad, f"pair codes {bad}")
         chk.obligation("fresh:upward_is_tell", "theorem", not upblock, f"pair codes {upblock}")
+        chk.obligation("fresh:callback_unbounded", "theorem", not bounded_cb and rc2 == 0,
+                       f"bounded callback waits at lines {bounded_cb}")
         chk.obligation("corr:waitfor-edges", "correspondence", run_ok and not unexpl,
                        f"unexplained observed pair codes {unexpl}")
     else:
